@@ -123,8 +123,9 @@ def run(c: Check):
                     seen.add(m)
                     todo.extend(identgen._export_succs(e["nodes"][m]))
                 return seen
-            if p["a"]["nodes"][t]["cls"] in ("TaskSelf", "TaskSelfG") and p["node"] in reach_all(p["exp_a"], t):
-                p["kind"] = "upstream-task:task-marks-own-parameter"
+            if p["a"]["nodes"][t]["cls"] in ("TaskSelf", "TaskSelfG") and p["node"] in reach_all(p["exp_a"], t) \
+                    and (identgen.remarked(p["a"]) or identgen.remarked(p["b"])):
+                p["kind"] = "upstream-task" + identgen.SELFMARK
         # guard: the edit may have been neutralised by the build (e.g. value coerced); only count real changes
         elif p["kind"] != "cycle-target" and p["exp_a"]["nodes"][p["node"]] == p["exp_b"]["nodes"][p["node"]] and p["which"] == "raw" \
                 and p["exp_a"]["classes"][p["exp_a"]["nodes"][p["node"]]["cls"]] == p["exp_b"]["classes"][p["exp_b"]["nodes"][p["node"]]["cls"]]:
